@@ -6,6 +6,7 @@ flow_controlled_length of every DataReceived vs every acknowledge_received_data 
 which grpclib processes / reads / releases.  Model side: Model/RecvLedger.v driven with exactly that order.
 Direct oracle: the property on the boundary ledger and on what the peer sees, without the model."""
 import asyncio
+import gc
 import logging
 
 from h2.events import RemoteSettingsChanged, RequestReceived, WindowUpdated
@@ -241,6 +242,11 @@ class LedgerClientEnd(wire.ClientEnd):
         return proto
 
 
+class _LogOnly:
+    def __init__(self, log):
+        self.log = log
+
+
 class Run:
     """one history on the real code; keeps the per-action snapshots and the oracle verdicts"""
 
@@ -398,6 +404,14 @@ class Run:
             self.final(loop)
             self.unhandled = len(loop.unhandled)
         return self
+
+    def slim(self):
+        """keep only what the comparison with the model needs, so that the loop, the tasks and the protocol
+        objects of this history can be freed (asyncio.all_tasks() walks every task still alive)"""
+        log = self.led.log if self.led is not None else None
+        self.led = _LogOnly(log) if log is not None else None
+        self.end = self.peer = self.transport = self.method = self.gos = None
+        self.tasks = {}
 
     # -- observations
     def finished(self, i):
@@ -657,7 +671,9 @@ def classify(res, case, run):
 
 def check_hist_cases(ctx, res, cases):
     runs = []
-    for case in cases:
+    for n, case in enumerate(cases):
+        if n % 400 == 0:
+            gc.collect()        # asyncio.all_tasks() walks every task object still alive, also of closed loops
         res.evaluations += 1
         try:
             run = run_hist(case)
@@ -681,6 +697,7 @@ def check_hist_cases(ctx, res, cases):
             res.count('oracle:' + k, v)
         if run.window is not None:
             res.count('oracle:peer-window-restored-checked')
+        run.slim()
         res.sample({'case': case, 'log': run.led.log[:40] if run.led else None, 'handshake': run.handshake,
                     'window_deficit_vs_h2_pending': run.window}, limit=4)
     if ctx.model_ok:
